@@ -1,11 +1,13 @@
 #!/bin/bash
-# tryseed.sh <seeded-dir-name> <check> [tier]: apply /verif/seeded/<name>/patch.diff to a scratch worktree of
-# /repo and run one check against it (VERIF_REPO); the worktree is removed afterwards.
+# tryseed.sh <seeded-dir-name> <check> [tier]: apply seeded/<name>/patch.diff to a scratch worktree of
+# /repo and run one check against it (VERIF_REPO); the worktree is removed afterwards.  Relocatable: uses
+# the copy of the machinery this script lives in (seeds are read from there too).
+HERE="$(cd "$(dirname "$0")/.." && pwd)"
 NAME="$1"; CHECK="$2"; TIER="${3:-quick}"
-WT="/tmp/tryseed_$NAME"
+WT="/tmp/tryseed_$(basename "$HERE")_$NAME"
 git -C /repo worktree remove --force "$WT" >/dev/null 2>&1
 git -C /repo worktree add --detach "$WT" HEAD -q || exit 2
-( cd "$WT" && git apply "/verif/seeded/$NAME/patch.diff" ) || { echo "patch does not apply"; exit 2; }
-VERIF_REPO="$WT" /verif/check "$CHECK" "$TIER" 2>&1 | grep -v "^KNOWN-FINDING" | tail -${LINES_OUT:-6}
+( cd "$WT" && git apply "$HERE/seeded/$NAME/patch.diff" ) || { echo "patch does not apply"; git -C /repo worktree remove --force "$WT"; exit 2; }
+VERIF_REPO="$WT" "$HERE/check" "$CHECK" "$TIER" 2>&1 | grep -v "^KNOWN-FINDING" | tail -${LINES_OUT:-6}
 git -C /repo worktree remove --force "$WT"; rm -rf "$WT"
-/verif/.build/extract /repo /verif/lean/GoSnaps/Generated >/dev/null 2>&1
+"$HERE/.build/extract" /repo "$HERE/lean/GoSnaps/Generated" >/dev/null 2>&1
